@@ -168,7 +168,8 @@ func Pool(profile string) []Decl {
 			f("a", "", t("{x: 1}"), t("{x: 2}")), f("a", "", st(in("x", "y + 1"), in("y", "x - 1"))), in("a", "1 & 2"), in("a", "_|_"),
 			f("a", "#D", t("#D"), st(in("zz", "1"))), in("a", "{x!: >1, >2}"), in("a", "close({}) & {q: 1}"), in("a", "[...a]"),
 			in("a", "{[string]: a}"), in("a", "div(1, 0)"), in("a", "1 / 0"), in("a", "{x: y, y: z, z: x}"), in("#D", "{x: #D | null}"),
-			f("a", "", t("*a | 1")), in("a", "{for k, v in a {(k): v}}"), in("a", "{if a.x != _|_ {y: 1}, x: 1}"), in("a", "{if a.y == _|_ {y: 1}}"), in("a", "{<3}"), in("a", "{>1, x?: 1}"), f("b", "a", st(raw("a.x", ""))))
+			f("a", "", t("*a | 1")), in("a", "{for k, v in a {(k): v}}"), in("a", "{if a.x != _|_ {y: 1}, x: 1}"), in("a", "{if a.y == _|_ {y: 1}}"), in("a", "{<3}"), in("a", "{>1, x?: 1}"), in("a", `matchN(1, [error("x"), error("x")]) & ([...] | {...})`), in("a", "matchN(1, [int, string])"),
+			in("a", `error("x") | 1`), in("a", "matchIf(int, 1, 2)"), in("a", `matchN(0, [a])`), in("a", "and([])"), in("a", "or([])"), in("a", "len(a)"), f("b", "a", st(raw("a.x", ""))))
 	}
 	if profile == "small" {
 		keep := map[string]bool{}
